@@ -53,8 +53,10 @@ def rt(x, how):
 
 def plain(v, depth=0):
     """numpy / tuples / odd scalars -> plain python data (lists, dicts with str keys, str, int, float, bool, None)"""
-    if v is None or isinstance(v, (bool, str)):
+    if v is None or isinstance(v, bool):
         return v
+    if isinstance(v, str):
+        return str(v)  # numpy.str_ -> str
     if isinstance(v, (int,)):
         return int(v)
     if isinstance(v, float):
@@ -215,6 +217,15 @@ def info_of(x):
     return {k: plain(v) for k, v in dict(info or {}).items() if k != "Refs"}
 
 
+def parent_coords(x):
+    """coordinates of the displayed segment on the parent; an empty view names no characters, and a view whose
+    underlying record carries no seqid is identified by the sequence name"""
+    if len(x) == 0:
+        return "empty"
+    seqid, start, stop, strand = x.parent_coordinates()
+    return [seqid if seqid is not None else x.name, int(start), int(stop), int(strand)]
+
+
 def seq_view(x):
     return {
         "str": obs(lambda: str(x)),
@@ -223,7 +234,7 @@ def seq_view(x):
         "type": type(x).__name__,
         "moltype": obs(lambda: x.moltype.label),
         "info": obs(lambda: info_of(x)),
-        "parent_coordinates": obs(lambda: list(x.parent_coordinates())),
+        "parent_coordinates": obs(lambda: parent_coords(x)),
         "annotation_offset": obs(lambda: int(x.annotation_offset)),
         "features": obs(lambda: features_of(x)),
         "annotation_db": obs(lambda: db_records(x.annotation_db)),
@@ -264,8 +275,17 @@ def seq_slice_ops(L, rich):
     return [["s", a, b, c] for a in ab for b in ab for c in cs]
 
 
-SEQ_PARENTS = {"dna": ["", "A", "ACGGTTACGA", "TG-CANR?"], "rna": ["ACGUUR-A"], "protein": ["MKVLQ-W"], "text": ["ABCDE"],
-               "bytes": ["ab!c"]}
+SEQ_ROOTS = [
+    # (moltype, parent, [(offset, feature set, info)])
+    ("dna", "ACGGTTACGA", [(0, 0, False), (5, 0, False), (0, 1, False), (5, 1, False), (3, 2, True)]),
+    ("dna", "TG-CANR?", [(0, 0, False), (0, 2, True)]),
+    ("dna", "", [(0, 0, False)]),
+    ("dna", "A", [(0, 0, False), (5, 0, False)]),
+    ("rna", "ACGUUR-A", [(0, 0, False), (5, 0, True)]),
+    ("protein", "MKVLQ-W", [(0, 0, True), (5, 0, False)]),
+    ("text", "ABCDE", [(0, 0, False), (5, 0, False)]),
+    ("bytes", "ab!c", [(0, 0, False)]),
+]
 
 
 def gen_seq(tier, seed):
@@ -273,31 +293,26 @@ def gen_seq(tier, seed):
     thorough = tier == "thorough"
     hows = CHANNELS + ("copy",)
     for new in (False, True):
-        for mt, parents in SEQ_PARENTS.items():
+        for mt, parent, roots in SEQ_ROOTS:
             nuc = mt in ("dna", "rna")
-            for parent in parents:
-                L = len(parent)
-                roots = [(0, 0, False)]
-                if L >= 5:
-                    roots += [(5, 0, False), (0, 0, True)]
-                if mt == "dna" and L == 10:
-                    roots += [(0, 1, False), (5, 1, False), (3, 2, True)]
-                extra = ([["rc"], ["rna" if mt == "dna" else "dna"]] if nuc else []) + ([["degap"]] if "-" in parent else [])
-                d1 = seq_slice_ops(L, rich=L <= 5 or thorough) if L else [["s", None, None, None]]
-                if L > 5 and not thorough:
-                    d1 = seq_slice_ops(L, rich=True)[::5] + seq_slice_ops(L, rich=False)
-                red = seq_slice_ops(L, rich=False)
-                for off, fid, info in roots:
-                    chains = [[]] + [[o] for o in d1 + extra]
-                    if L >= 2:
-                        l1 = red[::(1 if thorough else 4)] + extra
-                        l2 = red[::(2 if thorough else 5)] + extra
-                        chains += [[o1, o2] for o1 in l1 for o2 in l2]
-                        for _ in range(400 if thorough else 30):
-                            chains.append([rnd.choice(red + extra) for _ in range(3)])
-                    for ops in chains:
-                        for how in hows:
-                            yield [new, mt, parent, off, fid, info, ops, how]
+            L = len(parent)
+            extra = ([["rc"], ["rna" if mt == "dna" else "dna"]] if nuc else []) + ([["degap"]] if "-" in parent else [])
+            red = seq_slice_ops(L, rich=False)
+            rich = seq_slice_ops(L, rich=True)
+            d1 = rich if thorough else red[::2] + (rich[::3] if parent == "ABCDE" else [])
+            if L == 0:
+                d1 = red = [["s", None, None, None], ["s", None, None, -1], ["s", 0, 1, 2]]
+            for off, fid, info in roots:
+                chains = [[]] + [[o] for o in d1 + extra]
+                if L >= 2:
+                    pool = red + extra * 6
+                    for _ in range(600 if thorough else 40):
+                        chains.append([rnd.choice(pool), rnd.choice(pool)])
+                    for _ in range(200 if thorough else 8):
+                        chains.append([rnd.choice(pool) for _ in range(3)])
+                for ops in chains:
+                    for how in hows:
+                        yield [new, mt, parent, off, fid, info, ops, how]
 
 
 def seq_flags(off, fid, ops, x):
@@ -306,14 +321,6 @@ def seq_flags(off, fid, ops, x):
         fl.append("annotated")
     if off:
         fl.append("offset")
-    try:
-        st = x._seq.step
-        if st < 0:
-            fl.append("reversed")
-        if abs(st) > 1:
-            fl.append("strided")
-    except Exception:  # noqa: BLE001
-        pass
     if any(o[0] in ("rna", "dna", "degap") for o in ops):
         fl.append("converted")
     return ",".join(fl)
@@ -353,6 +360,1247 @@ def contract_seq(case):
                     nontrivial=len(s) > 0)
 
 
+# ------------------------------------------------------------------------------------------------ collections
+COLL_ROWS = {
+    "dna3": {"s1": "ACG-TTAC-A", "s2": "AC--TTGCGA", "s3": "-CGGTTACGA"},
+    "dna2": {"x": "ACGTRN", "y": "A-GT-C"},
+    "prot": {"p1": "MKV-LQ", "p2": "MK--LW", "p3": "MRVALQ"},
+    "one": {"only": "ACGTAC"},
+}
+COLL_MT = {"dna3": "dna", "dna2": "dna", "prot": "protein", "one": "dna"}
+GAPCH = "-?"
+
+
+def coll_model_apply(st, op):
+    """st = dict(names=[...], rows={name: gapped string}, mt=..., aligned=bool); returns new state or None when the
+    step has no plain-data model here (then only the round trip itself is checked)"""
+    k = op[0]
+    names, rows, mt, aligned = st["names"], st["rows"], st["mt"], st["aligned"]
+    if k == "take":
+        keep = [n for n in op[1] if n in names]
+        return dict(st, names=keep, rows={n: rows[n] for n in keep})
+    if k == "take_neg":
+        keep = [n for n in names if n not in op[1]]
+        return dict(st, names=keep, rows={n: rows[n] for n in keep})
+    if k == "rename":
+        return dict(st, names=[n.upper() for n in names], rows={n.upper(): rows[n] for n in names})
+    if k == "slice":
+        return dict(st, rows={n: rows[n][op[1]:op[2]:op[3]] for n in names})
+    if k == "rc":
+        return dict(st, rows={n: comp(rows[n][::-1], mt) for n in names})
+    if k == "rna":
+        return dict(st, rows={n: rows[n].replace("T", "U") for n in names}, mt="rna")
+    if k == "degap":
+        return dict(st, rows={n: "".join(c for c in rows[n] if c not in GAPCH) for n in names}, aligned=False)
+    if k == "omit_gap_pos":
+        L = len(rows[names[0]]) if names else 0
+        keep = [i for i in range(L) if not any(rows[n][i] in GAPCH for n in names)]
+        return dict(st, rows={n: "".join(rows[n][i] for i in keep) for n in names})
+    if k == "take_pos":
+        return dict(st, rows={n: "".join(rows[n][i] for i in op[1]) for n in names})
+    if k == "annot":
+        return st
+    raise ValueError(op)
+
+
+def coll_real_apply(x, op):
+    k = op[0]
+    if k == "take":
+        return x.take_seqs(list(op[1]))
+    if k == "take_neg":
+        return x.take_seqs(list(op[1]), negate=True)
+    if k == "rename":
+        return x.rename_seqs(lambda n: n.upper())
+    if k == "slice":
+        return x[op[1]:op[2]:op[3]]
+    if k == "rc":
+        return x.rc()
+    if k == "rna":
+        return x.to_rna()
+    if k == "degap":
+        return x.degap()
+    if k == "omit_gap_pos":
+        return x.omit_gap_pos(allowed_gap_frac=0)
+    if k == "take_pos":
+        return x.take_positions(list(op[1]))
+    if k == "annot":
+        x.add_feature(seqid=x.names[0], biotype="late", name="late1", spans=[(0, 2)])
+        return x
+    raise ValueError(op)
+
+
+def make_root_coll(kind, rid, annot):
+    from cogent3 import make_aligned_seqs, make_unaligned_seqs
+    rows = COLL_ROWS[rid]
+    mt = COLL_MT[rid]
+    info = {"note": "n1"}
+    if kind == "aln":
+        x = make_aligned_seqs(rows, moltype=mt, array_align=False, info=info)
+    elif kind == "arr":
+        x = make_aligned_seqs(rows, moltype=mt, array_align=True, info=info)
+    else:
+        data = {n: "".join(c for c in r if c not in GAPCH) for n, r in rows.items()}
+        x = make_unaligned_seqs(data, moltype=mt, info=info, new_type=kind == "ncoll")
+    if annot:
+        names = list(rows)
+        x.add_feature(seqid=names[0], biotype="gene", name="g1", spans=[(1, 3), (4, 6)], strand="+")
+        x.add_feature(seqid=names[-1], biotype="cds", name="c1", spans=[(2, 5)], strand="-")
+        if kind == "aln" and annot == 2:
+            x.add_feature(biotype="region", name="r1", spans=[(1, 4)], on_alignment=True)
+    return x
+
+
+def aligned_view(al):
+    return {
+        "str": obs(lambda: str(al)),
+        "name": obs(lambda: al.name),
+        "gaps": obs(lambda: al.map.get_gap_coordinates()),
+        "map_parent_length": obs(lambda: int(al.map.parent_length)),
+        "data": obs(lambda: seq_view(al.data)),
+    }
+
+
+def seqsdata_view(sd):
+    return {
+        "type": type(sd).__name__,
+        "names": obs(lambda: list(sd.names)),
+        "strings": obs(lambda: {n: str(sd.get_seq_str(seqid=n)) for n in sd.names}),
+        "alphabet": obs(lambda: list(sd.alphabet)),
+    }
+
+
+def coll_view(x):
+    def seqs():
+        out = {}
+        for n in x.names:
+            sq = x.get_seq(n)
+            out[n] = [str(sq), obs(lambda sq=sq: parent_coords(sq)), type(sq).__name__]
+        return out
+    return {
+        "type": type(x).__name__,
+        "names": obs(lambda: list(x.names)),
+        "dict": obs(lambda: dict(x.to_dict())),
+        "moltype": obs(lambda: x.moltype.label),
+        "info": obs(lambda: info_of(x)),
+        "seqs": obs(seqs),
+        "features": obs(lambda: features_of(x)),
+        "annotation_db": obs(lambda: db_records(x.annotation_db)),
+    }
+
+
+def coll_histories(kind, rid, thorough, rnd):
+    names = list(COLL_ROWS[rid])
+    L = len(COLL_ROWS[rid][names[0]])
+    nuc = COLL_MT[rid] == "dna"
+    base = [["take", names[::-1][:2]], ["take_neg", names[:1]], ["rename"]]
+    if nuc:
+        base += [["rc"], ["rna"]]
+    if kind in ("aln", "arr"):
+        sl = [["slice", a, b, None] for a, b in ((2, 8), (0, 3), (1, None), (None, -1), (3, 3), (-4, None))]
+        if kind == "arr":
+            sl += [["slice", None, None, 2], ["slice", 1, -1, 3]]
+        base += sl + [["degap"], ["omit_gap_pos"], ["take_pos", [0, 3, 4]], ["take_pos", [L - 1, 0]]]
+    else:
+        base += [["degap"]]
+    if kind != "arr":
+        base += [["annot"]]
+    chains = [[]] + [[o] for o in base]
+    pairs = [[o1, o2] for o1 in base for o2 in base]
+    if thorough:
+        chains += pairs + [[rnd.choice(base) for _ in range(3)] for _ in range(60)]
+    else:
+        chains += pairs[::5]
+    return chains
+
+
+def gen_coll(tier, seed):
+    rnd = random.Random(seed + 1)
+    thorough = tier == "thorough"
+    for kind in ("aln", "arr", "coll", "ncoll"):
+        for rid in COLL_ROWS:
+            if not thorough and rid in ("dna2", "one") and kind in ("arr",):
+                continue
+            annots = (0,) if kind == "arr" else (0, 1, 2) if kind == "aln" else (0, 1)
+            names = list(COLL_ROWS[rid])
+            for annot in annots:
+                for ops in coll_histories(kind, rid, thorough, rnd):
+                    targets = ["self"]
+                    if rid in ("dna3", "prot") and len(ops) <= (2 if thorough else 1):
+                        targets += ["seq"] + (["gapped", "aligned"] if kind in ("aln", "arr") else []) + (
+                            ["seqs"] if kind == "ncoll" else [])
+                    for target in targets:
+                        for how in CHANNELS:
+                            yield [kind, rid, annot, ops, target, how]
+
+
+def coll_refine(v0, v1, comps):
+    if set(comps) <= {"features", "annotation_db"} and v1.get("annotation_db") == [] and v0.get("annotation_db"):
+        return "annotations-dropped"
+    return None
+
+
+def contract_coll(case):
+    kind, rid, annot, ops, target, how = case
+    st = {"names": list(COLL_ROWS[rid]), "rows": dict(COLL_ROWS[rid]), "mt": COLL_MT[rid], "aligned": kind in ("aln", "arr")}
+    if not st["aligned"]:
+        st["rows"] = {n: "".join(c for c in r if c not in GAPCH) for n, r in st["rows"].items()}
+    for op in ops:
+        if op[0] in ("rc", "rna") and st["mt"] not in ("dna", "rna"):
+            return ("skip",)
+        if op[0] in ("slice", "omit_gap_pos", "take_pos") and not st["aligned"]:
+            return ("skip",)
+        try:
+            st = coll_model_apply(st, op)
+        except IndexError:
+            return ("skip",)  # position outside the current view
+    if not st["names"]:
+        return ("skip",)
+
+    def build():
+        x = make_root_coll(kind, rid, annot)
+        for op in ops:
+            x = coll_real_apply(x, op)
+        if target == "self":
+            return x
+        n = x.names[0]
+        if target == "seq":
+            return x.get_seq(n)
+        if target == "gapped":
+            return x.get_gapped_seq(n)
+        if target == "aligned":
+            return x.named_seqs[n]
+        if target == "seqs":
+            return x.seqs
+        raise ValueError(target)
+    try:
+        x = build()
+    except Exception:  # noqa: BLE001 - a history the library refuses is outside the precondition
+        return ("skip",)
+    flags = ",".join(f for f, on in (("annotated", annot or any(o[0] == "annot" for o in ops)),) if on)
+    n0 = st["names"][0]
+    if target == "self":
+        tag = f"coll/{kind}"
+        viewfn, refine = coll_view, coll_refine
+        model = {"names": st["names"], "dict": {n: st["rows"][n] for n in st["names"]}, "moltype": st["mt"]}
+    elif target in ("seq", "gapped"):
+        tag = f"coll/{kind}.{'get_seq' if target == 'seq' else 'get_gapped_seq'}"
+        viewfn, refine = seq_view, seq_refine
+        shown = st["rows"][n0] if target == "gapped" else "".join(c for c in st["rows"][n0] if c not in GAPCH)
+        model = {"str": shown, "name": n0}
+    elif target == "aligned":
+        if not hasattr(x, "map"):
+            return ("skip",)  # ArrayAlignment.named_seqs holds plain sequences (covered by target seq)
+        tag = f"coll/{kind}.Aligned"
+        viewfn, refine = aligned_view, None
+        model = {"str": st["rows"][n0]}
+    else:
+        tag = f"coll/{kind}.SeqsData"
+        viewfn, refine = seqsdata_view, None
+        model = None
+    return check_rt(tag, how, build, viewfn, case, flags=flags, model=model, refine=refine,
+                    nontrivial=any(st["rows"][n] for n in st["names"]))
+
+
+# ------------------------------------------------------------------------------------------------ trees
+TREES = {
+    "named5": "((a:1,b:2)ab:3,(c:4,d:5)cd:6,e:0.5)root;",
+    "anon4": "((a:1,b:2):3,(c:4,d:5):6);",
+    "nolen4": "((a,b),(c,d));",
+    "floats3": "(a:1e-07,b:123456789.123,c:0);",
+    "rootlen": "(a:1,b:2)r:7;",
+    "rootname": "((a:1,b:2)ab:0.5,c:3)myroot;",
+    "mixed5": "(a:1,(b:2,(c:3,(d:4,e:5)x)y:0.25)z);",
+    "pair": "(a:0.5,b:0.25);",
+    "multi6": "(a:1,b:1,(c:2,d:2,e:2)cde:1,f:3);",
+    "names": "(('a b':1,'c,d':2)in_1:1,e_f:1,'g''h':2);",
+}
+
+
+def tree_apply(t, op):
+    k = op[0]
+    if k == "rooted_at":
+        return t.rooted_at(op[1])
+    if k == "rooted_with_tip":
+        return t.rooted_with_tip(op[1])
+    if k == "unrooted":
+        return t.unrooted()
+    if k == "sub":
+        return t.get_sub_tree(list(op[1]))
+    if k == "bifurcating":
+        return t.bifurcating()
+    if k == "sorted":
+        return t.sorted()
+    if k == "midpoint":
+        return t.root_at_midpoint()
+    if k == "deepcopy":
+        return t.deepcopy()
+    if k == "scale":
+        t = t.deepcopy()
+        t.scale_branch_lengths()
+        return t
+    if k == "rename":
+        t = t.deepcopy()
+        t.reassign_names({op[1]: op[2]})
+        return t
+    if k == "param":
+        t = t.deepcopy()
+        t.get_node_matching_name(op[1]).params[op[2]] = op[3]
+        return t
+    if k == "nolength":
+        t = t.deepcopy()
+        t.get_node_matching_name(op[1]).length = None
+        return t
+    if k == "setlength":
+        t = t.deepcopy()
+        t.get_node_matching_name(op[1]).length = op[2]
+        return t
+    if k == "remove":
+        t = t.deepcopy()
+        t.remove_node(t.get_node_matching_name(op[1]))
+        t.prune()
+        return t
+    if k == "rootname":
+        t = t.deepcopy()
+        t.name = op[1]
+        return t
+    if k == "node":
+        return t.get_node_matching_name(op[1])
+    raise ValueError(op)
+
+
+def tree_view(t, newick=True):
+    """an absent parameter and a parameter that is None are the same observation; the newick text of a node that
+    still hangs in its tree spells the node's own name, a detached copy cannot, so for an inner node the text is
+    left to the structural components"""
+    def nodes():
+        out = []
+        for n in t.preorder():
+            out.append([n.name, n.length, {k: plain(v) for k, v in sorted(n.params.items()) if v is not None},
+                        [c.name for c in n.children], None if (n is t or n.parent is None) else n.parent.name])
+        return out
+    return {
+        "type": type(t).__name__,
+        "root_name": obs(lambda: t.name),
+        "root_length": obs(lambda: t.length),
+        "tips": obs(lambda: t.get_tip_names()),
+        "newick": obs(lambda: t.get_newick(with_distances=True, with_node_names=True)) if newick else None,
+        "nodes": obs(nodes),
+    }
+
+
+def tree_name_class(names):
+    order = ["structural-char", "quote", "space", "underscore", "punctuation"]
+    cls = set()
+    for nm in names:
+        if nm is None or nm.replace(".", "").isalnum():
+            continue
+        if any(c in nm for c in "(),:;"):
+            cls.add("structural-char")
+        elif "'" in nm:
+            cls.add("quote")
+        elif " " in nm:
+            cls.add("space")
+        elif "_" in nm:
+            cls.add("underscore")
+        else:
+            cls.add("punctuation")
+    return next((c for c in order if c in cls), "")
+
+
+def tree_histories(tid, thorough, rnd):
+    from cogent3 import make_tree
+    t = make_tree(TREES[tid])
+    tips = t.get_tip_names()
+    inner = [n.name for n in t.preorder() if n.children and n is not t]
+    ops = [["unrooted"], ["bifurcating"], ["sorted"], ["deepcopy"], ["scale"], ["midpoint"], ["rootname", "top"],
+           ["rename", tips[0], "zz9"], ["param", tips[0], "kappa", 2.5], ["param", tips[-1], "probs", [0.25, 0.75]],
+           ["nolength", tips[0]], ["setlength", tips[-1], 0.125]]
+    ops += [["rooted_with_tip", x] for x in tips[:2]]
+    ops += [["rooted_at", x] for x in inner[:2]] + [["node", x] for x in inner[:2]]
+    if inner:
+        ops += [["param", inner[0], "omega", 0.5], ["setlength", inner[0], 1.5]]
+    if len(tips) >= 4:
+        ops += [["sub", tips[:3]], ["sub", [tips[0], tips[2], tips[-1]]], ["remove", tips[1]]]
+    chains = [[]] + [[o] for o in ops]
+    pairs = [[o1, o2] for o1 in ops for o2 in ops if o1[0] != "node"]
+    chains += pairs if thorough else pairs[::7]
+    if thorough:
+        chains += [[rnd.choice(ops[:-2]) for _ in range(3)] for _ in range(80)]
+    return chains
+
+
+def gen_tree(tier, seed):
+    rnd = random.Random(seed + 2)
+    thorough = tier == "thorough"
+    for tid in TREES:
+        for ops in tree_histories(tid, thorough, rnd):
+            for how in CHANNELS:
+                yield [tid, ops, how]
+
+
+def contract_tree(case):
+    tid, ops, how = case
+    from cogent3 import make_tree
+
+    def build():
+        t = make_tree(TREES[tid])
+        for op in ops:
+            t = tree_apply(t, op)
+        return t
+    try:
+        x = build()
+        names = [n.name for n in x.preorder()]
+    except Exception:  # noqa: BLE001 - a history the library refuses is outside the precondition (C09's matter)
+        return ("skip",)
+    fl = []
+    inner = x.parent is not None
+    if inner:
+        fl.append("inner-node")
+    if any(nm is None for nm in names):
+        fl.append("unnamed-node")
+    nc = tree_name_class(names)
+    if nc:
+        fl.append("name:" + nc)
+    return check_rt("tree", how, build, lambda t: tree_view(t, newick=not inner), case, flags=",".join(fl),
+                    nontrivial=len(names) > 1)
+
+
+# ------------------------------------------------------------------------------------------------ tabular
+NAN, INF = float("nan"), float("inf")
+TABLES = {
+    # id -> (constructor kwargs, header, rows)
+    "mixed": (dict(index_name="id", title="My title", legend="a legend", digits=2, space=2),
+              ["id", "x", "y", "flag", "note"],
+              [["a", 1, 2.5, True, "plain"], ["b", 3, None, False, "two words"], ["c", -5, 4.125, True, ""],
+               ["d", 0, -0.5, False, "é中"]]),
+    "numeric": (dict(digits=6), ["a", "b", "c"],
+                [[1, 0.1, 1e-300], [2 ** 53 + 1, NAN, 1e300], [-7, INF, -0.0], [0, -INF, 123456.789]]),
+    "header_only": (dict(title="empty"), ["a", "b"], []),
+    "nothing": (dict(), [], []),
+    "onerow": (dict(index_name="k"), ["k", "v"], [["only", 1.5]]),
+    "fmt": (dict(column_templates={"x": "%03d", "y": "%.1e"}, missing_data="NA", max_width=24, space=1, legend="L",
+                 format="markdown"),
+            ["name", "x", "y", "z"], [["r1", 1, 2.5, "u"], ["r2", 30, 0.00012, "v"], ["r3", 7, 1e6, "w"]]),
+}
+
+
+def make_root_table(tid):
+    from cogent3 import make_table
+    kw, header, rows = TABLES[tid]
+    if not header:
+        return make_table(**kw)
+    return make_table(header=list(header), data=[list(r) for r in rows], **kw)
+
+
+def table_apply(t, op):
+    k = op[0]
+    if k == "rows":
+        return t[op[1]:op[2]]
+    if k == "cols":
+        return t.get_columns(list(op[1]))
+    if k == "cell_block":
+        return t[op[1]:op[2], list(op[3])]
+    if k == "sorted":
+        return t.sorted(columns=op[1], reverse=op[1] if op[2] else None)
+    if k == "filtered":
+        return t.filtered(lambda v: v is not None and v > op[2], columns=op[1])
+    if k == "with_new_column":
+        return t.with_new_column("twice", lambda v: v * 2, columns=op[1])
+    if k == "with_new_header":
+        return t.with_new_header(op[1], op[2])
+    if k == "transposed":
+        return t.transposed("key", select_as_header=op[1])
+    if k == "appended":
+        return t.appended(None, t)
+    if k == "appended_named":
+        return t.appended("src", [t, t], title="both")
+    if k == "title":
+        t = t[:]
+        t.title = op[1]
+        t.legend = op[2]
+        return t
+    if k == "index":
+        t = t[:]
+        t.index_name = op[1]
+        return t
+    if k == "format_column":
+        t = t[:]
+        t.format_column(op[1], op[2])
+        return t
+    if k == "space":
+        t = t[:]
+        t.space = op[1]
+        return t
+    if k == "format":
+        t = t[:]
+        t.format = op[1]
+        return t
+    if k == "distinct":
+        if t.index_name == op[1]:
+            raise ValueError("would make the index column non-unique")
+        t = t[:]
+        t.columns[op[1]] = [op[2]] * t.shape[0]
+        return t
+    raise ValueError(op)
+
+
+def table_model_apply(m, op):
+    """m = (header, rows) or None"""
+    if m is None:
+        return None
+    header, rows = m
+    k = op[0]
+    if k == "rows":
+        return header, rows[op[1]:op[2]]
+    if k == "cols":
+        idx = [header.index(c) for c in op[1]]
+        return [header[i] for i in idx], [[r[i] for i in idx] for r in rows]
+    if k in ("title", "space", "format", "format_column"):
+        return m
+    if k == "with_new_header":
+        return [op[2] if h == op[1] else h for h in header], rows
+    if k == "filtered":
+        i = header.index(op[1])
+        return header, [r for r in rows if r[i] is not None and r[i] > op[2]]
+    if k == "appended":
+        return header, rows + rows
+    return None
+
+
+def kind_of(dtype):
+    return {"U": "str", "S": "str", "O": "object", "i": "int", "u": "int", "f": "float", "b": "bool"}.get(dtype.kind, dtype.kind)
+
+
+def table_view(t):
+    return {
+        "type": type(t).__name__,
+        "header": obs(lambda: list(t.header)),
+        "shape": obs(lambda: list(t.shape)),
+        "rows": obs(lambda: [t.columns[c].tolist() for c in t.header]),
+        "kinds": obs(lambda: {c: kind_of(t.columns[c].dtype) for c in t.header}),
+        "title": obs(lambda: t.title),
+        "legend": obs(lambda: t.legend),
+        "index_name": obs(lambda: t.index_name),
+        "space": obs(lambda: t.space),
+        "format": obs(lambda: t.format),
+        "text": obs(lambda: str(t)),
+        "tsv": obs(lambda: t.to_string(format="tsv")),
+        "indexed_row": obs(lambda: (t[t.columns[t.index_name][0]].to_list() if t.index_name and t.shape[0] else None)),
+    }
+
+
+def table_histories(tid, thorough, rnd):
+    kw, header, rows = TABLES[tid]
+    if not header:
+        return [[]]
+    num = [h for h in header if rows and isinstance(rows[0][header.index(h)], (int, float)) and not isinstance(rows[0][header.index(h)], bool)]
+    ops = [["rows", 1, None], ["rows", 0, 2], ["rows", 2, 2], ["cols", header[::-1][:2]], ["cols", header[:1]],
+           ["title", "new title", "new legend"], ["title", "", ""], ["space", 6], ["format", "rst"],
+           ["with_new_header", header[-1], "renamed"], ["appended"]]
+    if num:
+        ops += [["sorted", num[0], False], ["sorted", num[0], True], ["filtered", num[0], 0], ["with_new_column", num[0]],
+                ["format_column", num[0], "%.2f"], ["cell_block", 0, 2, [header[0], num[0]]], ["distinct", num[0], 9]]
+    if rows:
+        ops += [["transposed", header[0]], ["index", header[0]], ["index", None], ["appended_named"]]
+    chains = [[]] + [[o] for o in ops]
+    pairs = [[o1, o2] for o1 in ops for o2 in ops]
+    chains += pairs if thorough else pairs[::6]
+    if thorough:
+        chains += [[rnd.choice(ops) for _ in range(3)] for _ in range(60)]
+    return chains
+
+
+DICTARRAYS = {
+    "1d": ([["a", "b", "c"]], [1, 2, 3]),
+    "2d": ([["a", "b"], ["x", "y", "z"]], [[1, 2, 3], [4, 5, 6]]),
+    "2df": ([["a", "b"], ["x", "y"]], [[0.1, NAN], [1e-300, -2.5]]),
+    "intkeys": ([2, 3], [[1, 2, 3], [4, 5, 6]]),
+    "intnames": ([[10, 20], ["x", "y"]], [[1, 2], [3, 4]]),
+    "3d": ([["a", "b"], ["x", "y"], ["p", "q"]], [[[1, 2], [3, 4]], [[5, 6], [7, 8]]]),
+    "bool": ([["a", "b"], ["x", "y"]], [[True, False], [False, True]]),
+    "motifs": (["ACGT", "ACGT"], [[0.7, 0.1, 0.1, 0.1], [0.1, 0.7, 0.1, 0.1], [0.1, 0.1, 0.7, 0.1], [0.1, 0.1, 0.1, 0.7]]),
+    "empty": ([[]], []),
+}
+
+
+def make_root_da(did):
+    from cogent3.util.dict_array import DictArrayTemplate
+    dims, arr = DICTARRAYS[did]
+    return DictArrayTemplate(*dims).wrap(arr)
+
+
+def da_apply(d, op):
+    k = op[0]
+    if k == "row":
+        return d[op[1]]
+    if k == "col":
+        return d[:, op[1]]
+    if k == "rows":
+        return d[list(op[1])]
+    if k == "norm_row":
+        return d.to_normalized(by_row=True)
+    if k == "norm_col":
+        return d.to_normalized(by_column=True)
+    if k == "row_sum":
+        return d.row_sum()
+    if k == "col_sum":
+        return d.col_sum()
+    raise ValueError(op)
+
+
+def da_view(d):
+    return {
+        "type": type(d).__name__,
+        "names": obs(lambda: [list(n) for n in d.template.names]),
+        "array": obs(lambda: d.array),
+        "kind": obs(lambda: kind_of(d.array.dtype)),
+        "shape": obs(lambda: list(d.shape)),
+        "dict": obs(lambda: d.to_dict()),
+        "text": obs(lambda: str(d)),
+    }
+
+
+DISTS = {
+    "sym3": {("a", "b"): 0.1, ("a", "c"): 0.2, ("b", "c"): 0.3},
+    "sym4": {("a", "b"): 0.1, ("a", "c"): 0.2, ("b", "c"): 0.3, ("a", "d"): 1.5, ("b", "d"): 0.0, ("c", "d"): 1e-9},
+    "nan4": {("a", "b"): 0.1, ("a", "c"): NAN, ("b", "c"): 0.3, ("a", "d"): 1.5, ("b", "d"): 0.25, ("c", "d"): 0.5},
+    "pair": {("x y", "z_1"): 0.75},
+}
+
+
+def make_root_dm(did):
+    from cogent3.evolve.fast_distance import DistanceMatrix
+    d = dict(DISTS[did])
+    d.update({(b, a): v for (a, b), v in list(d.items())})
+    return DistanceMatrix(d)
+
+
+def dm_apply(d, op):
+    k = op[0]
+    if k == "take":
+        return d.take_dists(list(op[1]))
+    if k == "take_neg":
+        return d.take_dists(list(op[1]), negate=True)
+    if k == "drop_invalid":
+        return d.drop_invalid()
+    raise ValueError(op)
+
+
+def dm_view(d):
+    v = da_view(d)
+    v["dm_names"] = obs(lambda: list(d.names))
+    v["pairs"] = obs(lambda: sorted([list(k), x] for k, x in d.to_dict().items()))
+    v.pop("dict")
+    return v
+
+
+def gen_tabular(tier, seed):
+    rnd = random.Random(seed + 3)
+    thorough = tier == "thorough"
+    for tid in TABLES:
+        for ops in table_histories(tid, thorough, rnd):
+            for how in CHANNELS:
+                yield ["table", tid, ops, how]
+    for did, (dims, arr) in DICTARRAYS.items():
+        ops = []
+        if did != "empty" and not isinstance(dims[0], int) and isinstance(dims[0], list):
+            ops += [["row", dims[0][0]], ["rows", dims[0][::-1]]]
+            if len(dims) > 1:
+                ops += [["col", dims[1][-1]]]
+        if did in ("2d", "2df", "motifs", "intkeys"):
+            ops += [["norm_row"], ["norm_col"], ["row_sum"], ["col_sum"]]
+        if did == "intkeys":
+            ops += [["row", 1], ["col", 2]]
+        if did == "motifs":
+            ops += [["row", "A"], ["col", "T"], ["rows", ["G", "A"]]]
+        chains = [[]] + [[o] for o in ops] + [[o1, o2] for o1 in ops for o2 in ops]
+        for ch in chains:
+            for how in CHANNELS:
+                yield ["dictarray", did, ch, how]
+    for did, d in DISTS.items():
+        names = sorted({n for k in d for n in k})
+        ops = [["take", names[:2]], ["take", names[::-1]], ["take_neg", names[:1]], ["drop_invalid"]]
+        chains = [[]] + [[o] for o in ops] + [[o1, o2] for o1 in ops for o2 in ops]
+        for ch in chains:
+            for how in CHANNELS:
+                yield ["distmat", did, ch, how]
+
+
+def contract_tabular(case):
+    what, rid, ops, how = case
+    make, apply, viewfn = {"table": (make_root_table, table_apply, table_view),
+                           "dictarray": (make_root_da, da_apply, da_view),
+                           "distmat": (make_root_dm, dm_apply, dm_view)}[what]
+
+    def build():
+        x = make(rid)
+        for op in ops:
+            x = apply(x, op)
+            if x is None or not hasattr(x, "to_rich_dict"):
+                raise ValueError("history leaves the type")
+        return x
+    try:
+        x = build()
+    except Exception:  # noqa: BLE001 - a history the library refuses (or that yields a scalar) is outside the precondition
+        return ("skip",)
+    model = None
+    if what == "table" and obs(lambda: x.index_name) == ["raises", "ValueError"]:
+        return ("skip",)  # the history itself left a table whose index column is not unique (not a round-trip matter)
+    if what == "table":
+        m = (list(TABLES[rid][1]), [list(r) for r in TABLES[rid][2]])
+        for op in ops:
+            try:
+                m = table_model_apply(m, op)
+            except (ValueError, IndexError):
+                m = None
+        if m is not None and m[0]:
+            header, rows = m
+            idx = obs(lambda: x.index_name)
+            if isinstance(idx, str) and idx in header and header[0] != idx:  # the index column is displayed first
+                i = header.index(idx)
+                header = [idx] + header[:i] + header[i + 1:]
+                rows = [[r[i]] + r[:i] + r[i + 1:] for r in rows]
+            model = {"header": header, "rows": [[r[j] for r in rows] for j in range(len(header))]} if rows else {"header": header}
+    return check_rt(what, how, build, viewfn, case, model=model, nontrivial=bool(getattr(x, "shape", (1,)) and all(getattr(x, "shape", (1,)))))
+
+
+# ------------------------------------------------------------------------------------------------ alphabets, moltypes
+OLD_MOLTYPES = ("dna", "rna", "protein", "protein_with_stop", "ab", "text", "bytes")
+NEW_MOLTYPES = ("dna", "rna", "protein", "protein_with_stop", "text", "bytes")
+
+
+def alpha_build(spec):
+    """spec = [family, moltype-or-code, base selector, ops...]"""
+    fam, src, base = spec[0], spec[1], spec[2]
+    if fam == "old":
+        from cogent3 import get_moltype
+        m = get_moltype(src)
+        x = m if base == "moltype" else m.alphabet if base == "alphabet" else getattr(m.alphabets, base)
+    elif fam == "oldcodon":
+        from cogent3 import get_code
+        x = get_code(src).get_alphabet(include_stop=base == "stop")
+    elif fam == "new":
+        from cogent3.core import new_moltype
+        m = new_moltype.get_moltype(src)
+        x = m if base == "moltype" else getattr(m, base)
+    elif fam == "newcodon":
+        from cogent3.core import new_genetic_code
+        x = new_genetic_code.get_code(src).get_alphabet(include_stop="stop" in base, include_gap="gap" in base)
+    else:
+        raise ValueError(spec)
+    if x is None:
+        raise ValueError("moltype has no such alphabet")
+    for op in spec[3:]:
+        k = op[0]
+        if k == "word":
+            x = x.get_word_alphabet(op[1])
+        elif k == "kmer":
+            x = x.get_kmer_alphabet(op[1], include_gap=op[2])
+        elif k == "with_gap":
+            x = x.with_gap_motif()
+        elif k == "subset":
+            x = x.get_subset(list(op[1]), excluded=op[2])
+        elif k == "attr":
+            x = getattr(x, op[1])
+        else:
+            raise ValueError(op)
+    return x
+
+
+def alpha_view(x):
+    if hasattr(x, "label") and not hasattr(x, "to_indices"):  # a MolType
+        return {
+            "type": type(x).__name__,
+            "label": obs(lambda: x.label),
+            "alphabet": obs(lambda: [str(c) for c in x.alphabet]),
+            "gaps": obs(lambda: sorted(str(g) for g in x.gaps)) if hasattr(x, "gaps") else None,
+            "ambiguities": obs(lambda: {str(k): sorted(v) for k, v in (x.ambiguities or {}).items()}),
+            "complement": obs(lambda: x.complement("ACGTN-")),
+            "makes": obs(lambda: type(x.make_seq(seq="".join(str(c) for c in list(x.alphabet)[:3]), name="q")).__name__),
+            "same_singleton": None,
+        }
+    motifs = obs(lambda: [c.decode("latin1") if isinstance(c, bytes) else str(c) for c in x])
+    probe = motifs[:5] if isinstance(motifs, list) and motifs and motifs[0] != "raises" else []
+    mlen = obs(lambda: x.motif_len if hasattr(type(x), "motif_len") else x.get_motif_len())
+
+    def indices():
+        if isinstance(mlen, int) and mlen > 1 and type(x).__name__ == "KmerAlphabet":
+            return x.to_indices("".join(probe)).tolist()  # kmer alphabets index a sequence of monomers
+        if isinstance(mlen, int) and mlen > 1 and type(x).__name__ == "CodonAlphabet" and hasattr(type(x), "gap_char"):
+            return x.to_indices("".join(probe)).tolist()
+        return numpy.asarray(x.to_indices(probe if isinstance(mlen, int) and mlen > 1 else "".join(probe))).tolist()
+    return {
+        "type": type(x).__name__,
+        "motifs": motifs,
+        "len": obs(lambda: len(x)),
+        "motif_len": mlen,
+        "moltype": obs(lambda: getattr(x.moltype, "label", x.moltype)),
+        "gap": obs(lambda: x.gap_char if hasattr(type(x), "gap_char") else x.gap),
+        "gap_index": obs(lambda: x.gap_index) if hasattr(type(x), "gap_index") else None,
+        "missing": obs(lambda: [x.missing_char, x.missing_index]) if hasattr(type(x), "missing_char") else None,
+        "to_indices": obs(indices),
+        "from_indices": obs(lambda: [str(m) for m in numpy.asarray(x.from_indices(numpy.arange(min(3, len(x)), dtype=numpy.uint8))).tolist()]
+                            if not isinstance(x.from_indices(numpy.arange(min(3, len(x)), dtype=numpy.uint8)), str)
+                            else x.from_indices(numpy.arange(min(3, len(x)), dtype=numpy.uint8))),
+        "is_valid": obs(lambda: bool(x.is_valid("".join(probe[:2])))) if hasattr(type(x), "is_valid") else None,
+    }
+
+
+def gen_alpha(tier, seed):
+    thorough = tier == "thorough"
+    specs = []
+    for mt in OLD_MOLTYPES:
+        specs.append(["old", mt, "moltype"])
+        for base in ("alphabet", "degen", "gapped", "degen_gapped"):
+            specs.append(["old", mt, base])
+            if mt in ("dna", "rna", "ab") or (thorough and mt == "protein" and base == "alphabet"):
+                for k in (2, 3) if mt != "protein" else (2,):
+                    if base in ("alphabet", "gapped") and (k == 2 or base == "alphabet"):
+                        specs.append(["old", mt, base, ["word", k]])
+                        if base == "alphabet":
+                            specs.append(["old", mt, base, ["word", k], ["with_gap"]])
+            specs.append(["old", mt, base, ["with_gap"]])
+        if mt in ("dna", "rna"):
+            t = "T" if mt == "dna" else "U"
+            specs += [["old", mt, "alphabet", ["subset", ["A", "C"], False]], ["old", mt, "alphabet", ["subset", [t], True]],
+                      ["old", mt, "alphabet", ["subset", ["A", "G"], False], ["word", 2]],
+                      ["old", mt, "alphabet", ["word", 2], ["subset", ["AA", "C" + t], False]],
+                      ["old", mt, "degen", ["attr", "non_degen"]], ["old", mt, "gapped", ["attr", "ungapped"]]]
+    codes = list(range(1, 7)) + [9, 11, 12] if not thorough else [1, 2, 3, 4, 5, 6, 9, 10, 11, 12, 13, 14, 15, 16, 21, 22, 23, 24, 25, 26]
+    for c in codes:
+        specs += [["oldcodon", c, "nostop"], ["oldcodon", c, "stop"]]
+        specs += [["newcodon", c, b] for b in ("plain", "stop", "gap", "stop+gap")]
+    specs += [["oldcodon", 1, "nostop", ["with_gap"]]]
+    for mt in NEW_MOLTYPES:
+        specs.append(["new", mt, "moltype"])
+        for base in ("alphabet", "gapped_alphabet", "degen_alphabet", "degen_gapped_alphabet"):
+            specs.append(["new", mt, base])
+            if mt in ("dna", "rna") or (mt == "protein" and base == "alphabet"):
+                for k in ((1, 2, 3) if mt != "protein" else (2,)):
+                    for gap in (False, True):
+                        specs.append(["new", mt, base, ["kmer", k, gap]])
+            if base == "alphabet":
+                specs.append(["new", mt, base, ["with_gap"]])
+    for spec in specs:
+        for how in CHANNELS:
+            yield [spec, how]
+
+
+def contract_alpha(case):
+    spec, how = case
+    try:
+        x = alpha_build(spec)
+    except Exception:  # noqa: BLE001 - an alphabet the library refuses to build is outside the precondition
+        return ("skip",)
+    is_mt = hasattr(x, "label") and not hasattr(x, "to_indices")
+    if how in ("json", "rich") and not hasattr(x, "to_rich_dict"):
+        return ("skip",)  # not a registered serialisable type (new-style MolType): only pickling applies
+    tag = f"alpha/{spec[0]}.{type(x).__name__}"
+    flags = ",".join(op[0] for op in spec[3:])
+    return check_rt(tag, how, lambda: alpha_build(spec), alpha_view, case, flags=flags, nontrivial=is_mt or len(x) > 0)
+
+
+# ------------------------------------------------------------------------------------------------ maps
+def gapped_string(bits):
+    """bits: string over {x,-} -> gapped dna string with distinct-ish residues"""
+    out, i = [], 0
+    for b in bits:
+        if b == "-":
+            out.append("-")
+        else:
+            out.append("ACGT"[i % 4])
+            i += 1
+    return "".join(out)
+
+
+def imap_model_apply(g, op):
+    k = op[0]
+    if k == "slice":
+        return g[op[1]:op[2]]
+    if k == "rev":
+        return comp(g[::-1], "dna")
+    if k == "termini":
+        return g
+    raise ValueError(op)
+
+
+def imap_apply(m, op):
+    k = op[0]
+    if k == "slice":
+        return m[op[1]:op[2]]
+    if k == "rev":
+        return m.nucleic_reversed()
+    if k == "termini":
+        return m.with_termini_unknown()
+    raise ValueError(op)
+
+
+def imap_view(m, ungapped=None):
+    from cogent3 import make_seq
+    return {
+        "type": type(m).__name__,
+        "gap_pos": obs(lambda: m.gap_pos),
+        "cum_gap_lengths": obs(lambda: m.cum_gap_lengths),
+        "parent_length": obs(lambda: int(m.parent_length)),
+        "len": obs(lambda: len(m)),
+        "gap_coordinates": obs(lambda: m.get_gap_coordinates()),
+        "coordinates": obs(lambda: m.get_coordinates()),
+        "num_gaps": obs(lambda: int(m.num_gaps)),
+        "termini_unknown": obs(lambda: bool(m.termini_unknown)),
+        "useful_complete": obs(lambda: [bool(m.useful), bool(m.complete)]),
+        "regapped": obs(lambda: str(make_seq(ungapped, moltype="dna").gapped_by_map(m))) if ungapped is not None else None,
+        "text": obs(lambda: str(m)),
+    }
+
+
+def span_view(sp):
+    return [type(sp).__name__, getattr(sp, "start", None), getattr(sp, "end", None), bool(getattr(sp, "reverse", False)),
+            int(getattr(sp, "length", 0) or 0), bool(getattr(sp, "lost", False)), plain(getattr(sp, "value", None)),
+            bool(getattr(sp, "tidy_start", False)), bool(getattr(sp, "tidy_end", False))]
+
+
+def fmap_view(m):
+    return {
+        "type": type(m).__name__,
+        "spans": obs(lambda: [span_view(sp) for sp in m.spans]),
+        "parent_length": obs(lambda: int(m.parent_length)),
+        "len": obs(lambda: len(m)),
+        "start_end": obs(lambda: [m.start, m.end]),
+        "useful_complete": obs(lambda: [bool(m.useful), bool(m.complete)]),
+        "coordinates": obs(lambda: m.get_coordinates()),
+        "gap_coordinates": obs(lambda: m.get_gap_coordinates()),
+        "covering": obs(lambda: span_view(m.get_covering_span())),
+        "text": obs(lambda: str(m)),
+    }
+
+
+FMAP_LOCS = [[], [[0, 8]], [[1, 3]], [[1, 3], [6, 8]], [[6, 8], [1, 3]], [[0, 4], [2, 6]], [[2, 2]], [[0, 3], [3, 5], [7, 8]]]
+
+
+def fmap_build(spec):
+    from cogent3.core.location import FeatureMap, LostSpan, Span
+    kind, arg = spec[0], spec[1]
+    if len(spec) > 2 and spec[2][0] == "indel_spans_seen":  # another object's spans were iterated earlier in the process
+        from cogent3 import make_seq
+        list(make_seq("A--CG-TAA---C", moltype="dna").parse_out_gaps()[0].spans)
+    if kind == "locs":
+        m = FeatureMap.from_locations(locations=[tuple(x) for x in arg], parent_length=8)
+    else:  # explicit spans: ["S", start, end, reverse] / ["L", length]
+        spans = [Span(x[1], x[2], reverse=x[3]) if x[0] == "S" else LostSpan(x[1]) for x in arg]
+        m = FeatureMap(spans=spans, parent_length=8)
+    for op in spec[2:]:
+        k = op[0]
+        if k == "slice":
+            m = m[op[1]:op[2]]
+        elif k == "indel_spans_seen":
+            pass
+        elif k == "rev":
+            m = m.nucleic_reversed()
+        elif k in ("gaps", "shadow", "covered", "nongap", "without_gaps", "zeroed", "inverse"):
+            m = getattr(m, k)()
+        else:
+            raise ValueError(op)
+    return m
+
+
+def gen_maps(tier, seed):
+    import itertools
+    rnd = random.Random(seed + 4)
+    thorough = tier == "thorough"
+    Lmax = 7 if thorough else 5
+    for L in range(1, Lmax + 1):
+        for bits in itertools.product("x-", repeat=L):
+            bits = "".join(bits)
+            ops1 = [["rev"], ["termini"], ["slice", 1, None], ["slice", 0, L - 1], ["slice", 1, L - 1], ["slice", 2, 2]]
+            chains = [[]] + [[o] for o in ops1]
+            if thorough or L <= 4:
+                chains += [[o1, o2] for o1 in ops1 for o2 in ops1[:4]]
+            for ch in chains:
+                for how in CHANNELS:
+                    yield ["indel", bits, ch, how]
+            if "-" in bits:
+                for how in CHANNELS:
+                    yield ["indel", bits, [["to_feature_map"]], how]
+                    yield ["indel", bits, [["rev"], ["to_feature_map"]], how]
+    if thorough:
+        for _ in range(300):
+            L = rnd.choice((9, 10, 12))
+            bits = "".join(rnd.choice("x-") for _ in range(L))
+            a = rnd.randrange(0, L)
+            ch = [rnd.choice([["rev"], ["termini"], ["slice", a, rnd.randrange(a, L + 1)]]) for _ in range(rnd.choice((1, 2, 3)))]
+            yield ["indel", bits, ch, rnd.choice(CHANNELS)]
+    fops = [["rev"], ["gaps"], ["shadow"], ["covered"], ["nongap"], ["without_gaps"], ["zeroed"], ["inverse"],
+            ["slice", 1, 3], ["slice", 0, 1], ["slice", 2, None]]
+    bases = [["locs", loc] for loc in FMAP_LOCS]
+    bases += [["spans", [["L", 2], ["S", 2, 5, False], ["L", 1]]], ["spans", [["S", 2, 5, True]]],
+              ["spans", [["S", 5, 7, True], ["S", 1, 3, True]]], ["spans", [["L", 3]]], ["spans", [["S", 0, 2, False], ["L", 2], ["S", 4, 8, False]]]]
+    for b in bases:
+        chains = [[]] + [[o] for o in fops] + [[o1, o2] for o1 in fops for o2 in fops][::(1 if thorough else 3)]
+        chains += [[["indel_spans_seen"]], [["indel_spans_seen"], ["rev"]]]
+        for ch in chains:
+            for how in CHANNELS:
+                yield ["feature", b, ch, how]
+
+
+def contract_maps(case):
+    what, base, ops, how = case
+    if what == "indel":
+        from cogent3 import make_seq
+        g = gapped_string(base)
+        gm = g
+        to_fm = bool(ops) and ops[-1][0] == "to_feature_map"
+        ops = ops[:-1] if to_fm else ops
+        for op in ops:
+            gm = imap_model_apply(gm, op)
+        ungapped = gm.replace("-", "")
+
+        def build():
+            m, _ = make_seq(g, moltype="dna").parse_out_gaps()
+            for op in ops:
+                m = imap_apply(m, op)
+            return m.to_feature_map() if to_fm else m
+        from cogent3.core import location
+        getattr(location, "_lost_span_cache", {}).clear()  # process-global flyweight cache: every case starts clean
+        try:
+            build()
+        except Exception:  # noqa: BLE001
+            return ("skip",)
+        if to_fm:
+            return check_rt("maps/IndelMap.to_feature_map", how, build, fmap_view, case, nontrivial=True)
+        model = {"len": len(gm), "regapped": gm, "parent_length": len(ungapped)}
+        if any(op[0] == "termini" for op in ops):
+            model = {"len": len(gm)}
+        return check_rt("maps/IndelMap", how, build, lambda m: imap_view(m, ungapped), case, model=model,
+                        nontrivial="-" in gm and gm.strip("-") != "")
+    spec = [base[0], base[1]] + list(ops)
+    from cogent3.core import location
+    getattr(location, "_lost_span_cache", {}).clear()
+    try:
+        x = fmap_build(spec)
+    except Exception:  # noqa: BLE001 - a history the library refuses is outside the precondition (C08's matter)
+        return ("skip",)
+    if type(x).__name__ != "FeatureMap":
+        return ("skip",)
+    tag = "maps/FeatureMap" + ("[after IndelMap.spans]" if ops and ops[0][0] == "indel_spans_seen" else "")
+    return check_rt(tag, how, lambda: fmap_build(spec), fmap_view, case, nontrivial=len(list(x.spans)) > 0)
+
+
+# ------------------------------------------------------------------------------------------------ annotation databases
+GFF_TEXT = """##gff-version 3
+s1\tsrc\tgene\t2\t9\t.\t+\t.\tID=gene1;Name=G1
+s1\tsrc\tCDS\t3\t5\t.\t-\t0\tID=cds1;Parent=gene1
+s2\tsrc\texon\t1\t4\t.\t.\t.\tID=ex1
+"""
+GB_TEXT = """LOCUS       s1                        12 bp    DNA     linear   UNA 01-JAN-2000
+FEATURES             Location/Qualifiers
+     gene            2..9
+                     /gene="g1"
+     CDS             complement(join(3..5,7..8))
+                     /gene="c1"
+                     /product="a product"
+ORIGIN
+        1 acggttacga cg
+//
+"""
+USER_FEATURES = [
+    dict(seqid="s1", biotype="gene", name="u1", spans=[(1, 3), (6, 8)], strand="+"),
+    dict(seqid="s2", biotype="cds", name="u2", spans=[(2, 5)], strand="-", parent_id="u1"),
+    dict(seqid="s1", biotype="region", name="u3", spans=[(0, 12)], strand="+", attributes="note=x;k=v", on_alignment=True),
+    dict(seqid="s3", biotype="gene", name="u'4 \"q\"", spans=[(4, 4)], strand=None),
+]
+
+
+def db_base(bid, tmp):
+    from cogent3.core.annotation_db import BasicAnnotationDb, GffAnnotationDb, load_annotations
+    if bid == "basic0":
+        return BasicAnnotationDb()
+    if bid == "basic":
+        db = BasicAnnotationDb()
+        for f in USER_FEATURES[:3]:
+            db.add_feature(**f)
+        return db
+    if bid in ("gff", "gb"):
+        path = os.path.join(tmp, f"in{len(os.listdir(tmp))}." + bid)
+        with open(path, "w") as f:
+            f.write(GFF_TEXT if bid == "gff" else GB_TEXT)
+        return load_annotations(path=path)
+    if bid == "gff_file":
+        db = GffAnnotationDb(source=os.path.join(tmp, f"store{len(os.listdir(tmp))}.gffdb"))
+        for f in USER_FEATURES[:2]:
+            db.add_feature(**f)
+        return db
+    raise ValueError(bid)
+
+
+def db_apply(db, op, tmp):
+    k = op[0]
+    if k == "add":
+        db.add_feature(**USER_FEATURES[op[1]])
+        return db
+    if k == "subset":
+        return db.subset(**op[1])
+    if k == "union":
+        return db.union(db_base(op[1], tmp))
+    if k == "update":
+        db.update(db_base(op[1], tmp))
+        return db
+    raise ValueError(op)
+
+
+def db_view(db):
+    return {
+        "type": type(db).__name__,
+        "records": obs(lambda: db_records(db)),
+        "len": obs(lambda: len(db)),
+        "tables": obs(lambda: list(db.table_names)),
+        "num_matches": obs(lambda: [db.num_matches(), db.num_matches(biotype="gene"), db.num_matches(seqid="s1")]),
+        "genes": obs(lambda: sorted(json.dumps(plain(dict(r)), sort_keys=True, default=str)
+                                    for r in db.get_features_matching(biotype="gene"))),
+        "biotype_counts": obs(lambda: dict(db.biotype_counts())),
+        "describe": obs(lambda: sorted(map(repr, db.describe.to_list()))),
+        "children": obs(lambda: sorted(json.dumps(plain(dict(r)), sort_keys=True, default=str)
+                                       for r in db.get_feature_children(name="gene1"))),
+    }
+
+
+def gen_annodb(tier, seed):
+    thorough = tier == "thorough"
+    bases = ["basic0", "basic", "gff", "gb", "gff_file"]
+    ops = [["add", 0], ["add", 3], ["subset", {"seqid": "s1"}], ["subset", {"biotype": "gene"}],
+           ["subset", {"seqid": "s1", "start": 2, "stop": 6, "allow_partial": True}], ["subset", {"name": "nomatch"}],
+           ["union", "basic"], ["union", "gff"], ["union", "gb"], ["update", "basic"], ["update", "gff"], ["update", "gb"]]
+    for b in bases:
+        chains = [[]] + [[o] for o in ops]
+        pairs = [[o1, o2] for o1 in ops for o2 in ops]
+        chains += pairs if thorough else pairs[::4]
+        for ch in chains:
+            for how in CHANNELS:
+                yield [b, ch, how]
+
+
+def contract_annodb(case):
+    bid, ops, how = case
+    shm = "/dev/shm"
+    with tempfile.TemporaryDirectory(dir=shm if os.path.isdir(shm) and os.access(shm, os.W_OK) else None) as tmp:
+        def build():
+            db = db_base(bid, tmp)
+            for op in ops:
+                db = db_apply(db, op, tmp)
+            return db
+        try:
+            x = build()
+            n = len(x)
+        except Exception:  # noqa: BLE001 - a history the library refuses is outside the precondition (C17's matter)
+            return ("skip",)
+        flags = "file-backed" if bid == "gff_file" else ""
+        return check_rt(f"annodb/{type(x).__name__}", how, build, db_view, case, flags=flags, nontrivial=n > 0)
+
+
+# ------------------------------------------------------------------------------------------------ models, likelihood functions
+DNA_ALN = {"a": "ATGGCTAAACGT", "b": "ATGGCCAAACGA", "c": "ATGGATAAGCGT", "d": "CTGGATAAGCGT"}
+PROT_ALN = {"a": "MKVLQWAC", "b": "MKILQWAC", "c": "MRVLEWSC", "d": "MRVLEWSC"}
+LF_TREE = "((a:0.1,b:0.2)ab:0.05,c:0.3,d:0.1);"
+LF_TREE3 = "(a:0.1,b:0.2,c:0.3);"
+NUC_MODELS = ["JC69", "K80", "F81", "HKY85", "TN93", "GTR", "ssGN", "GN", "BH", "DT"]
+CODON_MODELS = ["MG94HKY", "MG94GTR", "GY94", "CNFHKY", "CNFGTR", "Y98", "H04G", "H04GK", "H04GGK", "GNC"]
+PROT_MODELS = ["DSO78", "JTT92", "AH96", "AH96_mtmammals", "WG01"]
+
+
+def model_build(spec):
+    """spec = [kind, name-or-id, kwargs]"""
+    kind, name, kw = spec
+    kw = dict(kw)
+    if kind == "named":
+        from cogent3 import get_model
+        return get_model(name, **kw)
+    from cogent3.evolve import substitution_model as smod
+    from cogent3.evolve.predicate import MotifChange
+    if name == "custom_kappa":
+        preds = {"kappa": MotifChange("A", "G") | MotifChange("C", "T")}
+        return smod.TimeReversibleNucleotide(predicates=preds, name="mine", **kw)
+    if name == "custom_named_pred":
+        preds = {"beta": MotifChange("A", "C"), "gamma_": MotifChange("A", "T") | MotifChange("C", "G")}
+        return smod.TimeReversibleNucleotide(predicates=preds, name="mine2", **kw)
+    if name == "custom_list":
+        return smod.TimeReversibleNucleotide(predicates=[MotifChange("A", "G"), MotifChange("C", "T")], name="mine3", **kw)
+    if name == "custom_dinuc":
+        return smod.TimeReversibleDinucleotide(predicates={"kappa": MotifChange("A", "G") | MotifChange("C", "T")}, name="di", **kw)
+    if name == "custom_codon":
+        from cogent3.evolve.predicate import replacement
+        return smod.TimeReversibleCodon(predicates={"omega": replacement}, name="cod", **kw)
+    if name == "custom_protein":
+        return smod.TimeReversibleProtein(name="prot", **kw)
+    raise ValueError(spec)
+
+
+def data_for(sm):
+    from cogent3 import make_aligned_seqs
+    mt = sm.get_alphabet().moltype.label
+    if mt in ("protein", "protein_with_stop"):
+        return make_aligned_seqs(PROT_ALN, moltype="protein")
+    return make_aligned_seqs(DNA_ALN, moltype="dna")
+
+
+def model_view(sm):
+    from cogent3 import make_tree
+
+    def lf_part():
+        lf = sm.make_likelihood_function(make_tree(LF_TREE3), **({"bins": 2} if getattr(sm, "ordered_param", None) or sm.to_rich_dict().get("ordered_param") else {}))
+        aln = data_for(sm)
+        lf.set_alignment(aln.take_seqs(["a", "b", "c"]))
+        out = {"lnL": float(lf.get_log_likelihood()), "nfp": int(lf.get_num_free_params()), "param_names": list(lf.get_param_names()),
+               "mprobs": plain(lf.get_motif_probs().to_dict())}
+        try:
+            out["Q"] = plain(lf.get_rate_matrix_for_edge("a", calibrated=False).array)
+        except Exception as e:  # noqa: BLE001 - discrete-time models have no rate matrix
+            out["Q"] = ["raises", type(e).__name__]
+        return out
+    return {
+        "type": type(sm).__name__,
+        "name": obs(lambda: sm.name),
+        "motifs": obs(lambda: list(sm.get_motifs())),
+        "word_length": obs(lambda: sm.word_length),
+        "params": obs(lambda: list(sm.get_param_list())),
+        "mprob_model": obs(lambda: type(sm.mprob_model).__name__),
+        "moltype": obs(lambda: sm.get_alphabet().moltype.label),
+        "motif_probs": obs(lambda: sm.get_motif_probs()),
+        "lf": obs(lf_part),
+    }
+
+
+def gen_model(tier, seed):
+    thorough = tier == "thorough"
+    specs = [["named", n, {}] for n in NUC_MODELS + PROT_MODELS]
+    specs += [["named", n, {}] for n in (CODON_MODELS if thorough else CODON_MODELS[:3] + ["GNC"])]
+    mp = {"A": 0.1, "C": 0.2, "G": 0.3, "T": 0.4}
+    for n in ("HKY85", "GTR", "GN") + (("F81", "TN93") if thorough else ()):
+        specs += [["named", n, {"optimise_motif_probs": True}], ["named", n, {"motif_probs": mp}],
+                  ["named", n, {"ordered_param": "rate", "distribution": "gamma"}], ["named", n, {"recode_gaps": True}],
+                  ["named", n, {"name": "renamed"}], ["named", n, {"equal_motif_probs": True}]]
+    specs += [["named", "HKY85", {"ordered_param": "kappa", "distribution": "gamma", "partitioned_params": ["kappa"]}],
+              ["named", "HKY85", {"motif_length": 2}], ["named", "F81", {"motif_length": 2, "mprob_model": "monomer"}],
+              ["named", "HKY85", {"motif_length": 2, "mprob_model": "conditional"}], ["named", "F81", {"motif_length": 3}],
+              ["named", "MG94HKY", {"gc": 2}], ["named", "GY94", {"optimise_motif_probs": True}],
+              ["named", "MG94GTR", {"mprob_model": "tuple"}], ["named", "JTT92", {"optimise_motif_probs": True}],
+              ["named", "WG01", {"ordered_param": "rate", "distribution": "gamma"}]]
+    specs += [["custom", c, {}] for c in ("custom_kappa", "custom_named_pred", "custom_list", "custom_dinuc", "custom_codon", "custom_protein")]
+    specs += [["custom", "custom_named_pred", {"optimise_motif_probs": True}], ["custom", "custom_kappa", {"motif_probs": mp}]]
+    for spec in specs:
+        for how in CHANNELS:
+            yield [spec, how]
+
+
+def contract_model(case):
+    spec, how = case
+    try:
+        x = model_build(spec)
+    except Exception:  # noqa: BLE001 - a model the library refuses to build is outside the precondition
+        return ("skip",)
+    tag = "model/" + ("custom." if spec[0] == "custom" else "") + type(x).__name__
+    flags = ",".join(sorted(spec[2])) if spec[0] == "named" else spec[1]
+    return check_rt(tag, how, lambda: model_build(spec), model_view, case, flags=flags)
+
+
 BOUNDED = {
     "seq": {
         "gen": gen_seq, "contract": contract_seq,
@@ -360,9 +1608,96 @@ BOUNDED = {
                       "deserialise.deserialise_seq", "new_sequence.Sequence.copy", "Sequence.__reduce__ (pickle)"],
         "bound": "old and new Sequence types x dna/rna/protein/text/bytes parents of length 0..10 x annotation_offset {0,5,3} x "
                  "{no features, 2-3 features incl. multi-span and minus strand} x info {none, 2 keys} x histories: every "
-                 "slice a,b in [-L-1,L+1]+None, c in {None,+-1,+-2,+-3} (L<=5; a fifth of them for L>5 in quick), rc, "
-                 "to_rna/to_dna, degap; depth 2 reduced x reduced; depth 3 seeded sample; x channels json, rich, pickle, copy",
+                 "slice a,b in [-L-1,L+1]+None, c in {None,+-1,+-2,+-3} (quick, L>5: a,b in {None,-2,0,1,2,L-1,L+1}, c in "
+                 "{None,-1,+-2}), rc, to_rna/to_dna, degap; depth 2 and 3: seeded sample over the reduced set; x channels "
+                 "json, rich, pickle, copy",
         "rule": "a case = (type, moltype, parent, offset, feature set, info, history, channel); non-trivial when the "
                 "displayed string is non-empty; distinct by hash of the case",
+    },
+    "coll": {
+        "gen": gen_coll, "contract": contract_coll,
+        "functions": ["SequenceCollection / Alignment / ArrayAlignment .to_rich_dict / to_json", "Aligned.to_rich_dict / from_rich_dict",
+                      "new_alignment.SequenceCollection.to_rich_dict / from_rich_dict", "new_alignment.SeqsData.to_rich_dict",
+                      "deserialise.deserialise_seq_collections", "deserialise.deserialise_aligned"],
+        "bound": "Alignment, ArrayAlignment, old and new SequenceCollection x 4 fixed row sets (dna 3x10 and 2x6 with gaps and "
+                 "ambiguity codes, protein 3x6, single sequence) x {unannotated, sequence features, + alignment feature} x "
+                 "histories of depth <= 2 (thorough: all pairs + depth-3 sample; quick: every 5th pair) over take_seqs, "
+                 "take_seqs(negate), rename_seqs, column slices, rc, to_rna, degap, omit_gap_pos, take_positions, add_feature on "
+                 "the view x targets {collection, get_seq, get_gapped_seq, Aligned member, SeqsData} x channels json, rich, pickle",
+        "rule": "a case = (class, row set, annotation level, history, target, channel); non-trivial when some row is non-empty; "
+                "distinct by hash of the case",
+    },
+    "tree": {
+        "gen": gen_tree, "contract": contract_tree,
+        "functions": ["PhyloNode.to_rich_dict / to_json", "deserialise.deserialise_tree", "TreeNode.__reduce__ (pickle)"],
+        "bound": "10 fixed trees on 2..6 tips (named / unnamed internal nodes, no lengths, mixed lengths, tiny / huge / zero "
+                 "lengths, root with a name or a length, multifurcations, names with space, underscore, comma, quote) x "
+                 "histories of depth <= 2 (thorough: all pairs + depth-3 sample; quick: every 7th pair) over unrooted, "
+                 "bifurcating, sorted, deepcopy, scale_branch_lengths, root_at_midpoint, rooted_at, rooted_with_tip, "
+                 "get_sub_tree, remove_node+prune, reassign_names, set/clear a length, set an edge parameter (float, list), "
+                 "rename the root, take an inner node x channels json, rich, pickle",
+        "rule": "a case = (tree, history, channel); non-trivial when the tree has more than one node; distinct by hash",
+    },
+    "tabular": {
+        "gen": gen_tabular, "contract": contract_tabular,
+        "functions": ["Table.to_rich_dict / to_json / __getstate__ / __setstate__", "Columns.__getstate__ / __setstate__",
+                      "DictArray.to_rich_dict / to_json", "DistanceMatrix.to_rich_dict", "deserialise.deserialise_tabular"],
+        "bound": "6 tables (mixed str/int/float/bool/None columns with index, title, legend, digits, space; numeric with nan, "
+                 "+-inf, -0.0, 2**53+1, 1e-300; header only; no columns; one row; string column templates + missing_data + "
+                 "max_width + markdown format) x histories of depth <= 2 over row slices, column selection, sorted, filtered, "
+                 "with_new_column, with_new_header, transposed, appended, title/legend/space/format/index_name setters, "
+                 "format_column, column assignment; 9 DictArrays (1-3 dimensions, str/int keys, int/float/bool, empty) x "
+                 "row/column selection, to_normalized, row_sum, col_sum depth <= 2; 4 DistanceMatrices (incl. nan, names with "
+                 "space) x take_dists, negate, drop_invalid depth <= 2; x channels json, rich, pickle",
+        "rule": "a case = (kind, base object, history, channel); non-trivial when no dimension is empty; distinct by hash",
+    },
+    "alpha": {
+        "gen": gen_alpha, "contract": contract_alpha,
+        "functions": ["alphabet.Alphabet / CharAlphabet .to_rich_dict / to_json / __getnewargs_ex__", "moltype.MolType.to_rich_dict / to_json",
+                      "new_alphabet.CharAlphabet / KmerAlphabet / CodonAlphabet .to_rich_dict / from_rich_dict / pickle",
+                      "deserialise.deserialise_alphabet", "deserialise.deserialise_moltype"],
+        "bound": "old style: 7 molecular types and their 4 alphabets each, word alphabets k=2,3, with_gap_motif, get_subset "
+                 "(included / excluded, before and after get_word_alphabet), non_degen / ungapped derivations, codon alphabets "
+                 "of 9 (thorough 20) genetic codes with / without stops; new style: 6 molecular types (pickle only: no rich "
+                 "dict), their 4 alphabets, k-mer alphabets k=1..3 with / without gap, with_gap_motif, codon alphabets x "
+                 "{stop, gap}; x channels json, rich, pickle",
+        "rule": "a case = (family, source, derivation, channel); non-trivial when the alphabet is non-empty; distinct by hash",
+    },
+    "maps": {
+        "gen": gen_maps, "contract": contract_maps,
+        "functions": ["IndelMap.to_rich_dict / to_json / from_rich_dict", "FeatureMap.to_rich_dict / to_json / from_rich_dict",
+                      "Span / LostSpan .to_rich_dict / __getstate__", "location.deserialise_indelmap / deserialise_featuremap"],
+        "bound": "IndelMap: the map of every gapped string over {residue, gap} of length 1..5 (thorough 1..7, + 300 sampled of "
+                 "length 9..12) x histories depth <= 2 over nucleic_reversed, with_termini_unknown, 4 slices; FeatureMap: 8 "
+                 "location sets on a parent of length 8 (empty, full, 1-3 spans, unordered, overlapping, zero-length, "
+                 "adjacent) + 5 explicit span lists (lost spans, reversed spans) x histories depth <= 2 (quick: every 3rd "
+                 "pair) over nucleic_reversed, gaps, shadow, covered, nongap, without_gaps, zeroed, inverse, 3 slices; x "
+                 "channels json, rich, pickle",
+        "rule": "a case = (map kind, base, history, channel); IndelMap: non-trivial when the modelled gapped string has a "
+                "gap and a residue; FeatureMap: when it has a span; distinct by hash",
+    },
+    "annodb": {
+        "gen": gen_annodb, "contract": contract_annodb,
+        "functions": ["SqliteAnnotationDbMixin.to_rich_dict / to_json / __getstate__ / __setstate__",
+                      "annotation_db.deserialise_basic_db / deserialise_gff_db / deserialise_gb_db"],
+        "bound": "5 databases (empty Basic, Basic with 3 user features incl. multi-span, minus strand, parent_id, attributes, "
+                 "on_alignment; Gff loaded from a 3-row file; Genbank loaded from a 2-feature record with join/complement; "
+                 "file-backed Gff) x histories depth <= 2 (quick: every 4th pair) over add_feature (incl. a name with quotes "
+                 "and an empty span), subset (seqid / biotype / range / no match), union and update with a Basic, Gff or "
+                 "Genbank database x channels json, rich, pickle",
+        "rule": "a case = (base db, history, channel); non-trivial when the database has a record; distinct by hash",
+    },
+    "model": {
+        "gen": gen_model, "contract": contract_model,
+        "functions": ["substitution_model._SubstitutionModel.to_rich_dict / to_json / __getnewargs_ex__",
+                      "deserialise.deserialise_substitution_model"],
+        "bound": "every nucleotide (10) and protein (5) model of available_models(), 4 (thorough 10) codon models, x option "
+                 "variants for HKY85 / GTR / GN (thorough + F81, TN93): optimise_motif_probs, motif_probs, gamma rate "
+                 "heterogeneity, recode_gaps, name, equal_motif_probs; dinucleotide / trinucleotide motif_length with monomer / "
+                 "conditional / tuple mprob models, partitioned gamma parameter, genetic code 2; 6 user-defined models (dict "
+                 "and list predicates, own predicate names, dinucleotide, codon, protein) x channels json, rich, pickle; the "
+                 "view includes lnL, nfp, parameter names, motif probs and the rate matrix of a likelihood function built from "
+                 "the model on a fixed 3-taxon alignment",
+        "rule": "a case = (model spec, channel); always non-trivial; distinct by hash",
     },
 }
